@@ -41,8 +41,9 @@ def EOp.appended : EOp → Bytes
 /-! ## 2. Running operations on the model -/
 
 /-- The iterator standing on the word at `q`: one past it, holding its tag and payload, `addNext` as `calcNext`
-    sets it, the view being the whole tape.  (The `Set*` functions read only `off`, `t` and — `SetNull` on a
-    container — `cur`: see `runOp_iter_indep`.) -/
+    sets it, the view being the whole tape.  (The `Set*` functions read `off`, `t`, — `SetNull` on a container —
+    `cur`, and the view length `lim` as the bound of their index checks; any iterator on the word whose view contains
+    the value gives the same tape: see `runOp_iter_indep`.) -/
 def iterOn (pj : PJ) (q : Nat) : Iter :=
   ({ lim := pj.tape.size, off := q + 1, addNext := 0,
      cur := payloadOf ((word pj q).getD 0), t := tagOf ((word pj q).getD 0) } : Iter).calcNext false
@@ -314,40 +315,43 @@ theorem step (pj : PJ) (v : LVal) (op : EOp) (hok : Ok pj v) (hv : Valid pj v op
   obtain ⟨n, w, hn, hp, hf, hw, hta, hoff, ht, hcur⟩ := valid_node pj v hok op.pos e hnode
   rw [hta, gate_eq_kind] at hgate
   have hfin := fin_of_kind op n hgate
+  -- the view of `iterOn` is the whole tape, and the node lies inside the tape
+  have hlim := (iterOn_fields pj op.pos hw).1
+  have hsz := node_in_tape pj op.pos e v hok hnode
   cases op with
   | setInt q z =>
     simp only [EOp.pos] at *
     have he : e = q + 2 := by rw [← hf, hfin, hp]
     subst he
-    obtain ⟨pj', i', h1, h2, h3, h4, h5⟩ := setInt_doc pj v hok q hnode (iterOn pj q) hoff
+    obtain ⟨pj', i', h1, h2, h3, h4, h5⟩ := setInt_doc pj v hok q hnode (iterOn pj q) hoff (by rw [hlim, hoff]; omega)
       (by rw [ht]; exact (gate_eq_kind (.setInt q z) n).trans hgate) z
     exact ⟨pj', by simp only [applyOp, runOp, EOp.pos, h1, fstR], h2, by simp [EOp.appended, h3], h4, h5⟩
   | setUInt q z =>
     simp only [EOp.pos] at *
     have he : e = q + 2 := by rw [← hf, hfin, hp]
     subst he
-    obtain ⟨pj', i', h1, h2, h3, h4, h5⟩ := setUInt_doc pj v hok q hnode (iterOn pj q) hoff
+    obtain ⟨pj', i', h1, h2, h3, h4, h5⟩ := setUInt_doc pj v hok q hnode (iterOn pj q) hoff (by rw [hlim, hoff]; omega)
       (by rw [ht]; exact (gate_eq_kind (.setUInt q z) n).trans hgate) z
     exact ⟨pj', by simp only [applyOp, runOp, EOp.pos, h1, fstR], h2, by simp [EOp.appended, h3], h4, h5⟩
   | setFloat q z =>
     simp only [EOp.pos] at *
     have he : e = q + 2 := by rw [← hf, hfin, hp]
     subst he
-    obtain ⟨pj', i', h1, h2, h3, h4, h5⟩ := setFloat_doc pj v hok q hnode (iterOn pj q) hoff
+    obtain ⟨pj', i', h1, h2, h3, h4, h5⟩ := setFloat_doc pj v hok q hnode (iterOn pj q) hoff (by rw [hlim, hoff]; omega)
       (by rw [ht]; exact (gate_eq_kind (.setFloat q z) n).trans hgate) z
     exact ⟨pj', by simp only [applyOp, runOp, EOp.pos, h1, fstR], h2, by simp [EOp.appended, h3], h4, h5⟩
   | setBool q b =>
     simp only [EOp.pos] at *
     have he : e = q + 1 := by rw [← hf, hfin, hp]
     subst he
-    obtain ⟨pj', i', h1, h2, h3, h4, h5⟩ := setBool_doc pj v hok q hnode (iterOn pj q) hoff
+    obtain ⟨pj', i', h1, h2, h3, h4, h5⟩ := setBool_doc pj v hok q hnode (iterOn pj q) hoff (by rw [hlim, hoff]; omega)
       (by rw [ht]; exact (gate_eq_kind (.setBool q b) n).trans hgate) b
     exact ⟨pj', by simp only [applyOp, runOp, EOp.pos, h1, fstR], h2, by simp [EOp.appended, h3], h4, h5⟩
   | setString q s =>
     simp only [EOp.pos] at *
     have he : e = q + 2 := by rw [← hf, hfin, hp]
     subst he
-    obtain ⟨pj', i', h1, h2, h3, h4, h5⟩ := setString_doc pj v hok q hnode (iterOn pj q) hoff
+    obtain ⟨pj', i', h1, h2, h3, h4, h5⟩ := setString_doc pj v hok q hnode (iterOn pj q) hoff (by rw [hlim, hoff]; omega)
       (by rw [ht]; exact (gate_eq_kind (.setString q s) n).trans hgate) s hside
     exact ⟨pj', by simp only [applyOp, runOp, EOp.pos, h1, fstR], h2, by simp [EOp.appended, h3], h4, h5⟩
   | setNull q =>
@@ -355,17 +359,19 @@ theorem step (pj : PJ) (v : LVal) (op : EOp) (hok : Ok pj v) (hv : Valid pj v op
     rcases node_kinds pj n hn with ⟨k0, kf⟩ | ⟨k0, k1, kf⟩ | ⟨k0, k1, k2, kle, w', hw', hpay⟩
     · have he : e = q + 1 := by rw [← hf, kf, hp]
       subst he
-      obtain ⟨pj', i', h1, h2, h3, h4, h5⟩ := setNull_word_doc pj v hok q hnode (iterOn pj q) hoff (by rw [ht]; exact k0)
+      obtain ⟨pj', i', h1, h2, h3, h4, h5⟩ := setNull_word_doc pj v hok q hnode (iterOn pj q) hoff (by rw [hlim, hoff]; omega)
+        (by rw [ht]; exact k0)
       exact ⟨pj', by simp only [applyOp, runOp, EOp.pos, h1, fstR], h2, by simp [EOp.appended, h3], h4, h5⟩
     · have he : e = q + 2 := by rw [← hf, kf, hp]
       subst he
-      obtain ⟨pj', i', h1, h2, h3, h4, h5⟩ := setNull_scalar_doc pj v hok q hnode (iterOn pj q) hoff
+      obtain ⟨pj', i', h1, h2, h3, h4, h5⟩ := setNull_scalar_doc pj v hok q hnode (iterOn pj q) hoff (by rw [hlim, hoff]; omega)
         (by rw [ht]; exact k0) (by rw [ht]; exact k1)
       exact ⟨pj', by simp only [applyOp, runOp, EOp.pos, h1, fstR], h2, by simp [EOp.appended, h3], h4, h5⟩
     · rw [hp] at hw'
       cases word_inj hw hw'
       obtain ⟨pj', i', h1, h2, h3, h4, h5⟩ := setNull_container_doc pj v hok q e hnode (by omega)
         (hside (by rw [hta]; exact k2)) (iterOn pj q) hoff (by rw [hcur, hpay, hf])
+        (by rw [hcur, hpay, hf, hlim]; exact hsz)
         (by rw [ht]; exact k0) (by rw [ht]; exact k1) (by rw [ht]; exact k2)
       exact ⟨pj', by simp only [applyOp, runOp, EOp.pos, h1, fstR], h2, by simp [EOp.appended, h3], h4, h5⟩
 
@@ -429,7 +435,7 @@ theorem history_readback_iterOn (ops : List EOp) (pj : PJ) (v : LVal) (hok : Ok 
   rw [absOps_pos] at hon
   exact owalkValue_node_fuelOf pj' _ _ h2 h3 hon (by rw [iterOn_lim]; exact Nat.le_refl _)
 
-/-! ## 8. Any iterator on the node will do -/
+/-! ## 8. Any iterator on the node, with the node in its view, will do -/
 
 theorem fstR_bind {α β γ : Type} (x : Res α) (f : α → Res (β × γ)) :
     fstR (x >>= f) = x >>= fun a => fstR (f a) := by cases x <;> rfl
@@ -439,27 +445,157 @@ theorem fstR_panic {α β : Type} : fstR (Res.panic : Res (α × β)) = .panic :
 theorem fstR_ite {α β : Type} (c : Prop) [Decidable c] (a b : Res (α × β)) :
     fstR (if c then a else b) = if c then fstR a else fstR b := by split <;> rfl
 
-/-- The `Set*` functions read only `off`, `t` and `cur` of the iterator: two iterators agreeing on these produce
-    the same tape (the returned iterators differ in `lim`/`addNext`, which `fstR` drops). -/
-theorem runOp_iter_indep (pj : PJ) (i j : Iter) (op : EOp) (ho : i.off = j.off) (ht : i.t = j.t) (hc : i.cur = j.cur) :
+/-- One past the last tape index a `Set*` function writes through `i`, as the iterator's own tag and payload tell:
+    `off` for a one-word value, `off + 1` for a two-word value, `max off cur` for a container; 0 for a tag every gate
+    refuses. -/
+def valEnd (i : Iter) : Nat :=
+  if inCase (caseOf swSetNull 0) i.t then i.off
+  else if inCase (caseOf swSetNull 1) i.t then i.off + 1
+  else if inCase (caseOf swSetNull 2) i.t then max i.off i.cur.toNat
+  else 0
+
+theorem wrV_eq_wr {lim k : Nat} (h : k < lim) (tape : Array UInt64) (v : UInt64) : Iter.wrV lim tape k v = wr tape k v := by
+  simp only [Iter.wrV, h, if_true]
+
+/-- the tags of the two-word gates are those of `SetNull`'s second clause, the tags of `SetBool` those of its first -/
+theorem gate_class (t : UInt8) :
+    (inCase (caseOf swSetInt 0) t = true ∨ inCase (caseOf swSetUInt 0) t = true ∨ inCase (caseOf swSetFloat 0) t = true ∨
+      inCase (caseOf swSetStringBytes 0) t = true →
+        inCase (caseOf swSetNull 0) t = false ∧ inCase (caseOf swSetNull 1) t = true) ∧
+    (inCase (caseOf swSetBool 0) t = true → inCase (caseOf swSetNull 0) t = true) := by
+  simp only [inCase]
+  generalize t.toNat = n
+  have e1 : caseOf swSetInt 0 = [100, 108, 117, 34] := rfl
+  have e2 : caseOf swSetUInt 0 = [34, 100, 108, 117] := rfl
+  have e3 : caseOf swSetFloat 0 = [100, 108, 117, 34] := rfl
+  have e4 : caseOf swSetStringBytes 0 = [34, 100, 108, 117] := rfl
+  have e5 : caseOf swSetBool 0 = [116, 102, 110] := rfl
+  have e6 : caseOf swSetNull 0 = [116, 102, 110] := rfl
+  have e7 : caseOf swSetNull 1 = [34, 100, 108, 117] := rfl
+  rw [e1, e2, e3, e4, e5, e6, e7]
+  simp only [List.contains_eq_mem, List.mem_cons, List.not_mem_nil, or_false, decide_eq_true_eq, decide_eq_false_iff_not]
+  omega
+
+theorem set2_view_indep (pj : PJ) (i j : Iter) (w0 w1 : UInt64) (ho : i.off = j.off) (hi : i.off < i.lim)
+    (hj : j.off < j.lim) : Iter.set2 pj i w0 w1 = Iter.set2 pj j w0 w1 := by
+  unfold Iter.set2
+  rw [ho] at hi ⊢
+  by_cases h0 : j.off = 0
+  · simp only [h0, if_true]
+  · simp only [h0, if_false, wrV_eq_wr hi, wrV_eq_wr hj, wrV_eq_wr (show j.off - 1 < i.lim by omega),
+      wrV_eq_wr (show j.off - 1 < j.lim by omega)]
+
+/-- The `Set*` functions read `off`, `t`, `cur` of the iterator and the length `lim` of its view (the bound of their
+    index checks): two iterators agreeing on the first three, whose views both contain the value (`valEnd`), produce
+    the same tape (the returned iterators differ in `lim`/`addNext`, which `fstR` drops).  The view hypotheses cannot
+    be dropped: an iterator whose view ends inside the value panics where one with a longer view writes. -/
+theorem runOp_iter_indep (pj : PJ) (i j : Iter) (op : EOp) (ho : i.off = j.off) (ht : i.t = j.t) (hc : i.cur = j.cur)
+    (hi : valEnd i ≤ i.lim) (hj : valEnd j ≤ j.lim) :
     fstR (runOp pj i op) = fstR (runOp pj j op) := by
-  cases op <;>
-    simp only [runOp, Iter.setInt, Iter.setUInt, Iter.setFloat, Iter.setBool, Iter.setNull, Iter.setStringBytes,
-      Iter.set2, fstR_ite, fstR_bind, fstR_ok, fstR_err, fstR_panic, ho, ht, hc]
+  have two : inCase (caseOf swSetNull 0) j.t = false → inCase (caseOf swSetNull 1) j.t = true →
+      ∀ w0 w1, Iter.set2 pj i w0 w1 = Iter.set2 pj j w0 w1 := by
+    intro k0 k1 w0 w1
+    simp only [valEnd, ht, k0, k1, if_true, if_false, Bool.false_eq_true] at hi hj
+    exact set2_view_indep pj i j w0 w1 ho (by omega) (by omega)
+  have one : inCase (caseOf swSetNull 0) j.t = true → j.off ≠ 0 → ∀ v,
+      Iter.wrV i.lim pj.tape (j.off - 1) v = Iter.wrV j.lim pj.tape (j.off - 1) v := by
+    intro k0 h0 v
+    simp only [valEnd, ht, k0, if_true] at hi hj
+    rw [wrV_eq_wr (by omega), wrV_eq_wr (by omega)]
+  have g := gate_class j.t
+  cases op with
+  | setInt q z =>
+    simp only [runOp, Iter.setInt, ht, hc, ho]
+    cases hg : inCase (caseOf swSetInt 0) j.t with
+    | false => simp only [Bool.false_eq_true, if_false]
+    | true =>
+      obtain ⟨k0, k1⟩ := g.1 (Or.inl hg)
+      simp only [if_true, two k0 k1, fstR_bind, fstR_ok]
+  | setUInt q z =>
+    simp only [runOp, Iter.setUInt, ht, hc, ho]
+    cases hg : inCase (caseOf swSetUInt 0) j.t with
+    | false => simp only [Bool.false_eq_true, if_false]
+    | true =>
+      obtain ⟨k0, k1⟩ := g.1 (Or.inr (Or.inl hg))
+      simp only [if_true, two k0 k1, fstR_bind, fstR_ok]
+  | setFloat q z =>
+    simp only [runOp, Iter.setFloat, ht, hc, ho]
+    cases hg : inCase (caseOf swSetFloat 0) j.t with
+    | false => simp only [Bool.false_eq_true, if_false]
+    | true =>
+      obtain ⟨k0, k1⟩ := g.1 (Or.inr (Or.inr (Or.inl hg)))
+      simp only [if_true, two k0 k1, fstR_bind, fstR_ok]
+  | setString q sv =>
+    simp only [runOp, Iter.setStringBytes, ht, hc, ho]
+    cases hg : inCase (caseOf swSetStringBytes 0) j.t with
+    | false => simp only [Bool.false_eq_true, if_false]
+    | true =>
+      obtain ⟨k0, k1⟩ := g.1 (Or.inr (Or.inr (Or.inr hg)))
+      simp only [if_true, two k0 k1, fstR_bind, fstR_ok]
+  | setBool q b =>
+    simp only [runOp, Iter.setBool, ht, hc, ho]
+    cases hg : inCase (caseOf swSetBool 0) j.t with
+    | false => simp only [Bool.false_eq_true, if_false]
+    | true =>
+      by_cases h0 : j.off = 0
+      · simp only [h0, if_true]
+      · simp only [if_true, h0, if_false, one (g.2 hg) h0, fstR_bind, fstR_ok]
+  | setNull q =>
+    simp only [runOp, Iter.setNull, ht, hc, ho]
+    cases k0 : inCase (caseOf swSetNull 0) j.t with
+    | true =>
+      by_cases h0 : j.off = 0
+      · simp only [h0, if_true]
+      · simp only [if_true, h0, if_false, one k0 h0, fstR_bind, fstR_ok]
+    | false =>
+      simp only [Bool.false_eq_true, if_false]
+      cases k1 : inCase (caseOf swSetNull 1) j.t with
+      | true => simp only [if_true, two k0 k1, fstR_bind, fstR_ok]
+      | false =>
+        simp only [Bool.false_eq_true, if_false]
+        cases k2 : inCase (caseOf swSetNull 2) j.t with
+        | false => simp only [Bool.false_eq_true, if_false]
+        | true =>
+          simp only [valEnd, ht, hc, ho, k0, k1, k2, if_true, if_false, Bool.false_eq_true] at hi hj
+          by_cases h0 : j.off = 0
+          · simp only [h0, if_true]
+          · simp only [h0, if_true, if_false, wrV_eq_wr (show j.off - 1 < i.lim by omega),
+              wrV_eq_wr (show j.off - 1 < j.lim by omega),
+              nopFillV_eq_nopFill i.lim _ _ j.off j.cur.toNat rfl (by omega),
+              nopFillV_eq_nopFill j.lim _ _ j.off j.cur.toNat rfl (by omega), fstR_bind, fstR_ok]
 
-/-- hence `applyOp` is what the function does from ANY iterator standing on the word at `op.pos` — e.g. one
-    reached by `Advance`/`AdvanceInto`/`AdvanceIter` in any restricted view -/
+/-- hence `applyOp` is what the function does from ANY iterator standing on the word at `op.pos` whose view contains
+    the value (`valEnd i ≤ i.lim`) and is a prefix of the tape — e.g. one reached by
+    `Advance`/`AdvanceInto`/`AdvanceIter` in any restricted view -/
 theorem applyOp_of_iter (pj : PJ) (i : Iter) (op : EOp) {w : UInt64} (hw : word pj op.pos = some w)
-    (ho : i.off = op.pos + 1) (ht : i.t = tagOf w) (hc : i.cur = payloadOf w) :
+    (ho : i.off = op.pos + 1) (ht : i.t = tagOf w) (hc : i.cur = payloadOf w)
+    (hv : valEnd i ≤ i.lim) (hl : i.lim ≤ pj.tape.size) :
     fstR (runOp pj i op) = applyOp pj op := by
-  obtain ⟨_, a, b, c⟩ := iterOn_fields pj op.pos hw
-  exact runOp_iter_indep pj i (iterOn pj op.pos) op (by rw [a, ho]) (by rw [c, ht]) (by rw [b, hc])
+  obtain ⟨l, a, b, c⟩ := iterOn_fields pj op.pos hw
+  refine runOp_iter_indep pj i (iterOn pj op.pos) op (by rw [a, ho]) (by rw [c, ht]) (by rw [b, hc]) hv ?_
+  have e : valEnd (iterOn pj op.pos) = valEnd i := by simp only [valEnd, a, b, c, ho, ht, hc]
+  rw [e, l]; omega
 
-theorem applyOp_of_onNode (pj : PJ) (n : LVal) (i : Iter) (op : EOp) (hon : OnNode pj n i) (hp : op.pos = n.pos) :
+/-- the value a reader stands on ends where its tag and payload say -/
+theorem valEnd_onNode (pj : PJ) (n : LVal) (i : Iter) (hn : Ok pj n) (hon : OnNode pj n i) : valEnd i = n.fin := by
+  obtain ⟨ho, ⟨w, hw, ht, hc⟩, _⟩ := hon
+  obtain ⟨w', hw', ht'⟩ := ok_head pj n hn
+  cases word_inj hw hw'
+  rw [← ht] at ht'
+  rcases node_kinds pj n hn with ⟨k0, kf⟩ | ⟨k0, k1, kf⟩ | ⟨k0, k1, k2, kle, w'', hw'', hpay⟩
+  · simp only [valEnd, ht', k0, if_true, ho, kf]
+  · simp only [valEnd, ht', k0, k1, if_true, if_false, Bool.false_eq_true, ho, kf]
+  · cases word_inj hw hw''
+    simp only [valEnd, ht', k0, k1, k2, if_true, if_false, Bool.false_eq_true, ho, hc, hpay]
+    omega
+
+theorem applyOp_of_onNode (pj : PJ) (n : LVal) (i : Iter) (op : EOp) (hn : Ok pj n) (hon : OnNode pj n i)
+    (hl : i.lim ≤ pj.tape.size) (hp : op.pos = n.pos) :
     fstR (runOp pj i op) = applyOp pj op := by
+  have hv : valEnd i ≤ i.lim := by rw [valEnd_onNode pj n i hn hon]; exact hon.2.2.1
   obtain ⟨ho, ⟨w, hw, ht, hc⟩, _⟩ := hon
   rw [← hp] at hw ho
-  exact applyOp_of_iter pj i op hw ho ht hc
+  exact applyOp_of_iter pj i op hw ho ht hc hv hl
 
 /-! ## 9. Refused operations -/
 
@@ -495,10 +631,14 @@ theorem noErr_wr {α : Type} (a : Array α) (i : Nat) (v : α) : NoErr (wr a i v
   unfold wr; split
   · exact noErr_ok _
   · exact noErr_panic
+theorem noErr_wrV (lim : Nat) (a : Array UInt64) (i : Nat) (v : UInt64) : NoErr (Iter.wrV lim a i v) := by
+  unfold Iter.wrV; split
+  · exact noErr_wr _ _ _
+  · exact noErr_panic
 theorem noErr_set2 (pj : PJ) (i : Iter) (w0 w1 : UInt64) : NoErr (Iter.set2 pj i w0 w1) := by
   unfold Iter.set2; split
   · exact noErr_panic
-  · exact noErr_bind (noErr_wr _ _ _) fun t1 => noErr_bind (noErr_wr _ _ _) fun t2 => noErr_ok _
+  · exact noErr_bind (noErr_wrV _ _ _ _) fun t1 => noErr_bind (noErr_wrV _ _ _ _) fun t2 => noErr_ok _
 theorem noErr_nopFill : ∀ (n : Nat) (tape : Array UInt64) (lo hi : Nat), hi - lo = n → NoErr (Iter.nopFill tape lo hi) := by
   intro n
   induction n with
@@ -513,6 +653,23 @@ theorem noErr_nopFill : ∀ (n : Nat) (tape : Array UInt64) (lo hi : Nat), hi - 
     rw [Iter.nopFill]
     split
     · exact noErr_bind (noErr_wr _ _ _) fun t => ih t (lo + 1) hi (by omega)
+    · exact noErr_ok _
+
+theorem noErr_nopFillV (lim : Nat) : ∀ (n : Nat) (tape : Array UInt64) (lo hi : Nat), hi - lo = n →
+    NoErr (Iter.nopFillV lim tape lo hi) := by
+  intro n
+  induction n with
+  | zero =>
+    intro tape lo hi h
+    rw [Iter.nopFillV]
+    have : ¬ lo < hi := by omega
+    simp only [this, dite_false]
+    exact noErr_ok _
+  | succ n ih =>
+    intro tape lo hi h
+    rw [Iter.nopFillV]
+    split
+    · exact noErr_bind (noErr_wrV _ _ _ _) fun t => ih t (lo + 1) hi (by omega)
     · exact noErr_ok _
 
 theorem noErr_runOp (pj : PJ) (i : Iter) (op : EOp) (h : gateOf op i.t = true) : NoErr (runOp pj i op) := by
@@ -538,20 +695,20 @@ theorem noErr_runOp (pj : PJ) (i : Iter) (op : EOp) (h : gateOf op i.t = true) :
     simp only [runOp, Iter.setBool, h, if_true]
     split
     · exact noErr_panic
-    · exact noErr_bind (noErr_wr _ _ _) fun _ => noErr_ok _
+    · exact noErr_bind (noErr_wrV _ _ _ _) fun _ => noErr_ok _
   | setNull q =>
     simp only [gateOf, Bool.or_eq_true] at h
     simp only [runOp, Iter.setNull]
     split
     · split
       · exact noErr_panic
-      · exact noErr_bind (noErr_wr _ _ _) fun _ => noErr_ok _
+      · exact noErr_bind (noErr_wrV _ _ _ _) fun _ => noErr_ok _
     · split
       · exact noErr_bind (noErr_set2 _ _ _ _) fun _ => noErr_ok _
       · split
         · split
           · exact noErr_panic
-          · exact noErr_bind (noErr_wr _ _ _) fun _ => noErr_bind (noErr_nopFill _ _ _ _ rfl) fun _ => noErr_ok _
+          · exact noErr_bind (noErr_wrV _ _ _ _) fun _ => noErr_bind (noErr_nopFillV _ _ _ _ _ rfl) fun _ => noErr_ok _
         · rename_i h0 h1 h2
           rcases h with (h | h) | h
           · exact absurd h h0
